@@ -173,4 +173,64 @@ def wakes (w p : Nat) : Nat → Nat → Nat × Nat
     let rest := wakes w p n r.1
     (rest.1, (if r.2 then 1 else 0) + rest.2)
 
+/-! ### the step boundary (`DriverActor.receiveMsg_JoinPointReached` → `Driver.joinpoint_reached` → `move_to_next_task` /
+`DriverActor.on_benchmark_complete`): the driver-side decision when a hand-over takes place.  The last worker that reports the
+join point makes the driver post-process what is in `raw_samples` and hand over the WHOLE store (`to_externalizable(clear=True)`,
+whatever the post-processing call at the join point found: the store is also filled by the periodic ticks); at the last step the
+store is closed after the hand-over. -/
+
+structure DCfg where
+  cfg : Cfg
+  workers : Nat        -- len(Driver.workers)
+  steps : Nat          -- Driver.number_of_steps
+
+structure DState where
+  s : State
+  completed : Nat      -- Driver.currently_completed
+  stepNo : Nat         -- join points passed so far (Driver.current_step + 1)
+  lost : List Sid      -- history: records that were still in the driver's store when it was closed
+  closed : Bool        -- Driver.metrics_store is None
+
+def dinit : DState := { s := init, completed := 0, stepNo := 0, lost := [], closed := false }
+
+inductive DEvent
+  | pipe (e : Event)   -- request / ship / deliverU / deliverR as before; postprocess = the periodic tick of the driver's wake-up
+  | joinpoint          -- one worker's JoinPointReached message is handled by the driver
+deriving Repr, DecidableEq
+
+def DCfg.finished (c : DCfg) (d : DState) : Bool := d.stepNo == c.steps
+
+/-- the hand-over of a step boundary: `post_process_samples()` then `to_externalizable(clear=True)` -/
+def boundary (cfg : Cfg) (s : State) : Option State :=
+  (step cfg s .postprocess).bind fun s1 => step cfg s1 .handover
+
+def dstep (c : DCfg) (d : DState) : DEvent → Option DState
+  | .pipe .handover => none                     -- the store is externalized at step boundaries only
+  | .pipe .postprocess =>                       -- receiveMsg_WakeupMessage: `elif not self.driver.finished()`
+    if c.finished d then some d else (step c.cfg d.s .postprocess).map fun s' => { d with s := s' }
+  | .pipe (.request w sid) => (step c.cfg d.s (.request w sid)).map fun s' => { d with s := s' }
+  | .pipe (.ship w) => (step c.cfg d.s (.ship w)).map fun s' => { d with s := s' }
+  | .pipe (.deliverU w) => (step c.cfg d.s (.deliverU w)).map fun s' => { d with s := s' }
+  | .pipe .deliverR => (step c.cfg d.s .deliverR).map fun s' => { d with s := s' }
+  | .joinpoint =>
+    if c.finished d then none                   -- no join point after the last one
+    else if d.completed + 1 == c.workers then
+      match boundary c.cfg d.s with
+      | none => none
+      | some s2 =>
+        if d.stepNo + 1 == c.steps then
+          -- m = to_externalizable(clear=True); metrics_store.close(); metrics_store = None; on_benchmark_complete(m)
+          some { s := { s2 with dstore := [] }, completed := 0, stepNo := d.stepNo + 1, lost := d.lost ++ s2.dstore, closed := true }
+        else
+          -- move_to_next_task: m = to_externalizable(clear=True); on_task_finished(m, waiting_period)
+          some { d with s := s2, completed := 0, stepNo := d.stepNo + 1 }
+    else some { d with completed := d.completed + 1 }
+
+def drun (c : DCfg) : DState → List DEvent → Option DState
+  | d, [] => some d
+  | d, e :: es =>
+    match dstep c d e with
+    | some d' => drun c d' es
+    | none => none
+
 end Samples
